@@ -154,8 +154,8 @@ func c02Ops() []concOp {
 		// a subscribe function that fails after it has started delivering from a goroutine of its own: the
 		// Error the library makes of the panic must go through the same serialisation as the values
 		{name: "NewObservable(starts a producer, then panics)", build: func(a, b ro.Observable[int], set *recSet, out *h.Rec, place string) ro.Subscription {
-			o := ro.NewObservable(func(d ro.Observer[int]) ro.Teardown {
-				vrt.GoNamed("inner-producer", func() { d.Next(1); d.Next(2) })
+			o := ro.NewObservableWithContext(func(ctx ctxT, d ro.Observer[int]) ro.Teardown {
+				vrt.GoNamed("inner-producer", func() { d.NextWithContext(ctx, 1); d.NextWithContext(ctx, 2) })
 				panic(h.ErrCb)
 			})
 			return sub(placeInt(o, place), out)
